@@ -450,4 +450,145 @@ theorem rt_chain (ps : List Payload) (bs : Bytes)
           rw [hd, ih tl (fun q hq => hrt q (by simp [hq])) hr]
 
 
+/-! ### message -/
+
+
+/-- message round trip from the chain and header round trips -/
+theorem rt_msg (m : Msg) (bs : Bytes) (h' : Header)
+    (hmaj : m.hdr.major.toNat < 16) (hmin : m.hdr.minor.toNat < 16)
+    (hrt : ∀ p ∈ m.payloads, PayloadRT p ∧ p.isSK = false)
+    (h : encodeMsg m = .ok (bs, h')) :
+    ∃ m', decodeMsg bs = .ok m' ∧ m'.payloads = m.payloads ∧
+      m'.hdr.ispi = m.hdr.ispi ∧ m'.hdr.rspi = m.hdr.rspi ∧ m'.hdr.major = m.hdr.major ∧
+      m'.hdr.minor = m.hdr.minor ∧ m'.hdr.exch = m.hdr.exch ∧ m'.hdr.flags = m.hdr.flags ∧
+      m'.hdr.mid = m.hdr.mid := by
+  unfold encodeMsg at h
+  cases hc : encodeChain m.payloads with
+  | err => simp [hc] at h
+  | fault => simp [hc] at h
+  | ok pb =>
+    simp only [hc, Res.bind_ok] at h
+    cases hm : marshalHeader { m.hdr with next := firstType m.payloads, payloadBytes := pb } with
+    | err =>
+      simp [hm] at h
+    | fault =>
+      simp [hm] at h
+    | ok out =>
+      simp [hm] at h
+      obtain ⟨rfl, rfl⟩ := h
+      have hp := rt_header _ _ (by simpa using hmaj) (by simpa using hmin) hm
+      refine ⟨⟨{ m.hdr with next := firstType m.payloads, payloadBytes := pb }, m.payloads⟩, ?_, rfl, rfl, rfl, rfl, rfl, rfl, rfl, rfl⟩
+      unfold decodeMsg
+      rw [hp]
+      simp only [Res.bind_ok]
+      rw [rt_chain m.payloads pb hrt hc]
+      simp
+
+
+/-! ### Security Association -/
+
+
+/-- transforms of the encodable domain: no attribute, a TV attribute, or a TLV attribute with a non-empty value; attribute type < 2^15 -/
+def Transform.Dom (t : Transform) : Prop :=
+  (t.present = false ∧ t.fmt = 0 ∧ t.atype = 0 ∧ t.aval = 0 ∧ t.vval = []) ∨
+  (t.present = true ∧ t.fmt = 1 ∧ t.atype.toNat < 32768 ∧ t.vval = []) ∨
+  (t.present = true ∧ t.fmt = 0 ∧ t.atype.toNat < 32768 ∧ t.aval = 0 ∧ t.vval ≠ [])
+
+theorem parseTransform_marshal (t : Transform) (last : Bool) (h rest : Bytes) (hd : t.Dom)
+    (hm : marshalTransform last t = .ok h) :
+    parseTransform (h ++ rest) = .ok (t, h.length) ∧ 8 ≤ h.length := by
+  unfold marshalTransform at hm
+  cases ha : marshalAttr t with
+  | err => simp [ha] at hm
+  | fault => simp [ha] at hm
+  | ok a =>
+    simp only [ha, Res.bind_ok] at hm
+    split at hm
+    · simp at hm
+    · rename_i hlen
+      simp only [Res.ok.injEq] at hm
+      subst hm
+      have hl : (UInt16.ofNat (8 + a.length)).toNat = 8 + a.length := ofNat_toNat_u16 _ (by omega)
+      generalize hv : UInt16.ofNat (8 + a.length) = v at *
+      have e8 : (8 : UInt16).toNat = 8 := rfl
+      have e12 : (12 : UInt16).toNat = 12 := rfl
+      refine ⟨?_, by len_omega⟩
+      unfold parseTransform
+      go_steps
+      have htl : be16 (byteAt ([if last = true then 0 else 3, 0] ++ put16 v ++ [t.ttype, 0] ++ put16 t.tid ++ a ++ rest) 2)
+                      (byteAt ([if last = true then 0 else 3, 0] ++ put16 v ++ [t.ttype, 0] ++ put16 t.tid ++ a ++ rest) 3) = v := by
+        simp [put16, be16_put]
+      rw [htl]
+      rw [if_neg (by simp only [UInt16.lt_iff_toNat_lt, hl, e8]; omega), hl, if_neg (by len_omega)]
+      go_steps
+      have htt : byteAt ([if last = true then 0 else 3, 0] ++ put16 v ++ [t.ttype, 0] ++ put16 t.tid ++ a ++ rest) 4 = t.ttype := by
+        simp [put16]
+      have htid : be16 (byteAt ([if last = true then 0 else 3, 0] ++ put16 v ++ [t.ttype, 0] ++ put16 t.tid ++ a ++ rest) 6)
+                       (byteAt ([if last = true then 0 else 3, 0] ++ put16 v ++ [t.ttype, 0] ++ put16 t.tid ++ a ++ rest) 7) = t.tid := by
+        simp [put16, be16_put]
+      rw [htt, htid]
+      unfold marshalAttr at ha
+      rcases hd with ⟨h1, h2, h3, h4, h5⟩ | ⟨h1, h2, h3, h5⟩ | ⟨h1, h2, h3, h4, h5⟩
+      · -- no attribute
+        simp [h1] at ha
+        subst ha
+        simp at hl
+        rw [if_neg (by simp only [gt_iff_lt, UInt16.lt_iff_toNat_lt, hl, e8]; omega)]
+        cases t; simp_all
+      · -- TV
+        simp [h1, h2] at ha
+        subst ha
+        simp at hl
+        rw [if_pos (by simp only [gt_iff_lt, UInt16.lt_iff_toNat_lt, hl, e8]; omega)]
+        rw [if_neg (by simp only [UInt16.lt_iff_toNat_lt, hl, e12]; omega)]
+        go_steps
+        have w := attr_word_tv t.atype h3
+        have hw15 : (1 : UInt16) <<< 15 = 0x8000 := rfl
+        rw [hw15] at *
+        have b8 := tbuf_bytes (if last = true then 0 else 3) 0 t.ttype v t.tid (put16 (32768 ||| t.atype) ++ put16 t.aval) rest 0
+        have b9 := tbuf_bytes (if last = true then 0 else 3) 0 t.ttype v t.tid (put16 (32768 ||| t.atype) ++ put16 t.aval) rest 1
+        have b10 := tbuf_bytes (if last = true then 0 else 3) 0 t.ttype v t.tid (put16 (32768 ||| t.atype) ++ put16 t.aval) rest 2
+        have b11 := tbuf_bytes (if last = true then 0 else 3) 0 t.ttype v t.tid (put16 (32768 ||| t.atype) ++ put16 t.aval) rest 3
+        simp only [Nat.add_zero, Nat.reduceAdd] at b8 b9 b10 b11
+        rw [b8, b9, b10, b11]
+        simp only [put16, List.cons_append, List.nil_append, byteAt_cons_zero, byteAt_cons_succ]
+        rw [w.1, be16_put, be16_put, w.2]
+        cases t; simp_all
+      · -- TLV
+        have hne : ¬ t.vval.length = 0 := by
+          intro hc; exact h5 (List.eq_nil_of_length_eq_zero hc)
+        simp [h1, h2, hne] at ha
+        split at ha
+        · simp at ha
+        · rename_i hvl
+          simp at ha
+          subst ha
+          have hal : (UInt16.ofNat t.vval.length).toNat = t.vval.length := ofNat_toNat_u16 _ (by omega)
+          generalize hq : UInt16.ofNat t.vval.length = q at *
+          simp at hl hlen
+          have hpos : 0 < t.vval.length := by omega
+          rw [if_pos (by simp only [gt_iff_lt, UInt16.lt_iff_toNat_lt, hl, e8]; omega)]
+          rw [if_neg (by simp only [UInt16.lt_iff_toNat_lt, hl, e12]; omega)]
+          go_steps
+          have w := attr_word_tlv t.atype h3
+          have b8 := tbuf_bytes (if last = true then 0 else 3) 0 t.ttype v t.tid (put16 t.atype ++ (put16 q ++ t.vval)) rest 0
+          have b9 := tbuf_bytes (if last = true then 0 else 3) 0 t.ttype v t.tid (put16 t.atype ++ (put16 q ++ t.vval)) rest 1
+          have b10 := tbuf_bytes (if last = true then 0 else 3) 0 t.ttype v t.tid (put16 t.atype ++ (put16 q ++ t.vval)) rest 2
+          have b11 := tbuf_bytes (if last = true then 0 else 3) 0 t.ttype v t.tid (put16 t.atype ++ (put16 q ++ t.vval)) rest 3
+          simp only [Nat.add_zero, Nat.reduceAdd] at b8 b9 b10 b11
+          rw [b8, b9, b10, b11]
+          simp only [put16, List.cons_append, List.nil_append, byteAt_cons_zero, byteAt_cons_succ]
+          rw [w, be16_put, be16_put, u16_and_7fff_of_lt _ h3]
+          have hsum : (12 + q != v) = false := by
+            simp only [bne_eq_false_iff_eq]
+            apply UInt16.toNat_inj.mp
+            simp only [UInt16.toNat_add, hal, hl, e12]
+            omega
+          simp only [hsum]
+          simp only [List.length_cons]
+          rw [show 8 + (t.vval.length + 1 + 1 + 1 + 1) = t.vval.length + 12 from by omega]
+          cases t
+          simp_all [List.take_succ_cons]
+
+
 end Ike
